@@ -387,6 +387,10 @@ func (f *Frame) applyContract(ct *Contract, fn *ssa.Function, sig *types.Signatu
 	for _, en := range ct.Ensures {
 		ex.vc.AssumeIf(st.reach, penv.boolE(en.Expr))
 	}
+	for _, en := range ct.Grants {
+		ex.vc.AssumeIf(st.reach, penv.boolE(en.Expr))
+		ex.vc.trusted["granted at call sites of "+shortPkg(ct.Pkg)+"."+ct.Target+" (history token / call-graph frame, see forbids): "+en.Src] = true
+	}
 	for _, c := range copies {
 		hn, hs := ex.heapOfType(c.t)
 		ex.storeLV(st, c.lv, sel(ex.H(st, hn, hs), c.ref))
@@ -708,7 +712,7 @@ func (f *Frame) appendBuiltin(c *ssa.CallCommon, args []Val, in ssa.Instruction,
 	}
 	var content string
 	if n >= 0 && n <= 8 {
-		content = ite(eq(arrA, "0"), fmt.Sprintf("((as const %s) %s)", ArrS(SInt, es), ex.reg.ZeroValue(sl.Elem())), sel(h, arrA))
+		content = ite(eq(arrA, "0"), ex.reg.ConstArray(SInt, es, ex.reg.ZeroValue(sl.Elem())), sel(h, arrA))
 		content = ex.vc.Define("appc", ArrS(SInt, es), content)
 		for k := 0; k < n; k++ {
 			content = sto(content, fmt.Sprintf("(+ %s %s %d)", offA, lenA, k), sel(sel(h, arrB), fmt.Sprintf("(+ %s %d)", offB, k)))
